@@ -1042,6 +1042,10 @@ func runScheme(rep *emit.Report, sch *crypto.Scheme, seed int64, root, tier stri
 		rep.Fail("C13-dkg-result-handed-over-before-db-commit", "executeAndFinishDKG handed the new group/share to the beacon process before SaveFinished committed it: a crash in between leaves files of an epoch the database does not know",
 			map[string]interface{}{"scheme": sch.Name})
 	}
+	// ---- key.Save on targets that are not regular files (CLI --out): still written through ----
+	if err := specialTargets(rep, w, root); err != nil {
+		return nil, nil, err
+	}
 	// ---- M sweep: every prefix of the group / share file of the resharing ----
 	if err := sweep(rep, w, n, root, tier); err != nil {
 		return nil, nil, err
